@@ -1,8 +1,10 @@
 (* The branch-and-bound skeleton TRANSLATED from omega/symbolic/cover.py
-   (_traverse, _branch, minimize: gen/CoverBBGen.v, tie T, regenerated on
-   every run by tools/vlib/cover_bbgen.py) is the hand-written model
-   L5Cover/MinCover.v (traverse with _branch inlined, minimize) that the C09
-   theorems talk about.  Leibniz equalities, by unfolding and case analysis
+   (_traverse, _branch, minimize) and cover_enum.py (_traverse_exhaustive,
+   _branch_exhaustive) (gen/CoverBBGen.v, tie T, regenerated on every run by
+   tools/vlib/cover_bbgen.py) is the hand-written model: L5Cover/MinCover.v
+   (traverse with _branch inlined, minimize) that the C09 theorems talk
+   about, and the branch-and-bound part [trav] of L5Cover/CoverEnum.ccfr that
+   the C10 theorems talk about.  Leibniz equalities, by unfolding and case analysis
    on the scrutinees (plus n + 1 = S n): a change of the skeleton in cover.py
    that alters the translated term (a comparison operator, the order of the
    tests, the value returned or threaded as upper bound, the arguments of
@@ -10,7 +12,8 @@
    the sampled inputs. *)
 From Coq Require Import List ZArith Bool Arith Lia.
 Import ListNotations.
-From Omega Require Import L5Cover.Boxes L5Cover.MinCover L5Cover.CoverEnum.
+From Omega Require Import L5Cover.Boxes L5Cover.MinCover L5Cover.CoverEnum
+  L5Cover.CoverEnumExact L5Cover.CoverEnumTotal.
 From OmegaGen Require Import CoverBBGen.
 
 Lemma cost_lt_cost (a b : option (list box)) : cost_lt (cost a) (cost b) = lt_cost a b.
@@ -51,7 +54,51 @@ Proof.
   - destruct (unfloors pick C _); reflexivity.
   - destruct (unfloors pick c0 _); reflexivity.
 Qed.
+
+(* cover_enum._traverse_exhaustive with _branch_exhaustive: the branch and
+   bound inside _cyclic_core_fixpoint_recursive *)
+Theorem traverse_exh_gen_is_model : forall rec x y npc ub,
+  traverse_exh_gen pick rec x y npc ub = trav pick rec x y npc ub.
+Proof.
+  intros rec x y npc ub. unfold traverse_exh_gen, trav. cbv zeta.
+  destruct x as [|x0 x']; cbn [is_nil].
+  - destruct y as [|y0 y']; cbn [is_nil check]; reflexivity.
+  - destruct (ub <? _)%nat; [reflexivity|].
+    unfold branch_exh_gen. destruct (pick y) as [d|]; [|reflexivity]. cbv zeta.
+    rewrite Nat.add_1_r.
+    destruct (negb (Nat.eqb _ _)); cbn [check]; [|reflexivity].
+    destruct (rec _ _ (S npc) ub) as [[Fl ul]|e]; cbn [bind fst snd]; [|reflexivity].
+    destruct (rec _ _ npc ul) as [[Fr ur]|e]; cbn [bind fst snd]; [|reflexivity].
+    destruct (map (fun c_ => union c_ [d]) Fl) as [|l0 Ls]; cbn [is_nil]; [reflexivity|].
+    destruct Fr as [|r0 Rs]; cbn [is_nil]; [reflexivity|].
+    destruct (length l0 <? length r0)%nat eqn:E1; [reflexivity|].
+    destruct (length r0 <? length l0)%nat eqn:E2; [reflexivity|].
+    apply Nat.ltb_ge in E1. apply Nat.ltb_ge in E2.
+    assert (E3 : Nat.eqb (length l0) (length r0) = true) by (apply Nat.eqb_eq; lia).
+    rewrite E3. reflexivity.
+Qed.
+
+(* ... which is where CoverEnum.ccfr uses it *)
+Theorem ccfr_uses_translated_skeleton : forall n X Y pc ub,
+  ccfr rs pick (S n) X Y pc ub =
+  check (cover_refines X Y)
+    (let xt := max_ceilings rs X Y in
+     let yt := max_floors rs xt Y in
+     let yfl := dedup (map (floor rs xt) Y) in
+     let e := inter xt yt in
+     let x := diff xt e in
+     let y := diff yt e in
+     let npc := (pc + length e)%nat in
+     bind (if (if (if same_setb x X then same_setb y Y else false) then true else is_nil x)
+           then traverse_exh_gen pick (ccfr rs pick n) x y npc ub
+           else ccfr rs pick n x y npc ub)
+          (wrap X Y xt yt yfl e y)).
+Proof.
+  intros. rewrite ccfr_unfold. cbv zeta. rewrite traverse_exh_gen_is_model. reflexivity.
+Qed.
 End Bridge.
 
+Print Assumptions traverse_exh_gen_is_model.
+Print Assumptions ccfr_uses_translated_skeleton.
 Print Assumptions traverse_gen_is_model.
 Print Assumptions minimize_gen_is_model.
